@@ -520,20 +520,61 @@ section Dispatch
 open MosnVerif.Model.HealthDispatch MosnVerif.Model.HealthCheck
 
 /-- **one_check_one_result**: the dispatch loop of `sessionChecker.Start` as regenerated from the source (ordered actions
-of every select branch), for EVERY schedule of interval-timer firings, timeout-timer firings (possible between any two
-actions of the loop goroutine, i.e. during handlers of any duration; a fired timer is not taken back by a later Stop),
-answers (of the check in flight or of older ones, in any order), loop progress and Stop: the handler calls, tagged with the
-check they are accounted to, have strictly increasing check ids (NO check produces two results: an answered check's timeout
-is never counted as well), every one is an event the loop really accepted for a check that was really performed, every check
-was issued once, and every performed check whose turn is over (`id < checkID`) has produced its result. -/
+of every select branch, the id comparison of the timeout case, the id the timeout timer carries), for EVERY schedule of
+interval-timer firings, timeout-timer firings (possible between ANY two steps of the loop goroutine: also between the
+receive of an answer and the `checkTimeout.Stop()` that follows it, and during handlers of any duration; a fired timer is
+not taken back by a later Stop, its send stays parked on the unbuffered `c.timeout`), answers (of the check in flight or of
+older ones, in any order), receives of parked expiries (in any order relative to answers: a select with both ready may take
+either), loop progress and Stop: the handler calls, tagged with the check they are accounted to, have strictly increasing
+check ids (NO check produces two results: an answered check's timeout is never counted as well, neither for that check nor
+for the next one), every one is an event the loop really accepted for a check that was really performed, every check was
+issued once, every performed check whose turn is over (`id < checkID`) has produced its result, and every expiry still
+parked on the channel belongs to a performed check (never to a future one).
+No atomicity of "receive + first action of the branch" is assumed any more. -/
 theorem one_check_one_result (evs : List HealthDispatch.Ev) :
     let s := HealthDispatch.run genProg (D.init genProg) evs
     (ids s).Pairwise (· > ·) ∧ s.issued.Pairwise (· > ·) ∧
     (∀ e ∈ s.log, e ∈ s.outcomes ∧ e.1 ∈ s.issued) ∧
-    (∀ i ∈ s.issued, i < s.checkID → i ∈ ids s) ∧ s.parked = [] := by
+    (∀ i ∈ s.issued, i < s.checkID → i ∈ ids s) ∧ (∀ k ∈ s.parked, k ∈ s.issued ∧ k ≤ s.checkID) := by
   rw [genProg_real]
   have h := inv_run _ evs inv_init
-  exact ⟨h.log_sorted, h.issued_sorted, fun e he => ⟨h.log_out e he, h.log_issued e he⟩, h.complete, h.parked⟩
+  exact ⟨h.log_sorted, h.issued_sorted, fun e he => ⟨h.log_out e he, h.log_issued e he⟩, h.complete,
+    fun k hk => ⟨(h.parked_ok k hk).1, (h.parked_ok k hk).2.1⟩⟩
+
+/-- **stale_timeout_ignored**: in every reachable state, when the loop's select receives a parked expiry whose id is not the
+awaited check's id (the timer of an answered check that fired before it was stopped), no handler runs, nothing is accepted,
+the interval timer and the id counter are untouched and the expiry is gone from the channel. -/
+theorem stale_timeout_ignored (evs : List HealthDispatch.Ev) (k : Nat) (rest : List Nat) :
+    let s := HealthDispatch.run genProg (D.init genProg) evs
+    s.exited = false → s.todo = [] → s.parked = k :: rest → k ≠ s.currentID →
+    let s' := HealthDispatch.step genProg s .recvTimeout
+    s'.log = s.log ∧ s'.outcomes = s.outcomes ∧ s'.parked = rest ∧ s'.checkID = s.checkID ∧
+      (s.stopReq = false → s'.armed = s.armed ∧ s'.tmo = s.tmo ∧ s'.todo = []) := by
+  rw [genProg_real]
+  intro s hx ht hp hk
+  simp only [HealthDispatch.step, hx, hp, idle, ht, realProg, enter, finish]
+  by_cases hs : s.stopReq = true <;> simp [hk, hs, perform]
+
+/-- **timeout_not_lost**: the id comparison never drops the timeout of the awaited check: in every reachable state in which
+the loop waits in its select for a check that was performed, that check's timeout timer is still running or its expiry is
+parked on the channel — and a received expiry that carries the awaited id is accepted as that check's (network-failure)
+result. -/
+theorem timeout_not_lost (evs : List HealthDispatch.Ev) :
+    let s := HealthDispatch.run genProg (D.init genProg) evs
+    s.exited = false → s.todo = [] → s.checkID ∈ s.issued →
+    (s.tmo = some s.checkID ∨ s.checkID ∈ s.parked) ∧ s.currentID = s.checkID ∧
+    (∀ rest, s.parked = s.checkID :: rest →
+      (HealthDispatch.step genProg s .recvTimeout).outcomes = (s.checkID, .timeout) :: s.outcomes ∧
+      (HealthDispatch.step genProg s .recvTimeout).todo = genProg.onTimeout) := by
+  rw [genProg_real]
+  intro s hx ht hi
+  have h := inv_run _ evs inv_init
+  have hc := h.cur_id ht hx
+  refine ⟨h.pending ht hx hi, hc, ?_⟩
+  intro rest hp
+  have hc' : s.currentID = s.checkID := hc
+  simp only [HealthDispatch.step, hx, hp, idle, ht, realProg, enter, finish]
+  simp [hc']
 
 /-- **dispatch_threshold_exact**: `threshold_exact` lifted from handler sequences to real executions of the loop: for every
 schedule and all thresholds ≥ 1, what the callbacks see is the run-length reference applied to the per-check results
@@ -543,28 +584,57 @@ theorem dispatch_threshold_exact (u h : Nat) (hu : 1 ≤ u) (hh : 1 ≤ h) (flag
       spec u h flag0 [] (results (HealthDispatch.run genProg (D.init genProg) evs)) :=
   threshold_exact u h hu hh flag0 _
 
-/-- **negation witness, stop after the handlers**: check 1 is answered healthy in time, its timeout timer fires while the
-handler runs, the loop stops it afterwards — and then consumes the parked expiry: check 1 is counted twice
-(success, then timeout) and the freshly armed next check is cancelled. -/
-theorem late_stop_counts_twice :
-    (HealthDispatch.run lateStopProg (D.init lateStopProg)
-      [.fireCheck, .answer 1 true, .fireTimeout, .act, .act, .act, .recvTimeout, .act, .act, .act, .act]).log
+/-- **negation witness, the loop before the repair** (`case <-c.timeout:` without the id comparison) under the finer step
+semantics: check 1 is answered healthy, its timeout timer fires between the receive of the answer and the Stop; the loop
+handles the answer, arms check 2 — and its next select finds the parked expiry: check 1 is counted twice (success, then
+network failure) and the armed check 2 is cancelled (`armed` is false after the `stopCheck` of the timeout branch).
+Reproduced on the real code: `hl 1 1 0 r => 2o5 w=1` (harness/c16/dispatch.go, letter r). -/
+theorem unguarded_timeout_counts_twice :
+    let s := HealthDispatch.run unguardedProg (D.init unguardedProg)
+      [.fireCheck, .answer 1 true, .fireTimeout, .act, .act, .act, .act, .recvTimeout, .act, .act, .act]
+    s.log = [(1, .timeout), (1, .success)] ∧ s.armed = false ∧ s.issued = [1] := by decide
+
+/-- the same when both channels are ready at one select and Go takes the answer: the timer fired BEFORE the answer was received -/
+theorem unguarded_select_race_counts_twice :
+    (HealthDispatch.run unguardedProg (D.init unguardedProg)
+      [.fireCheck, .fireTimeout, .answer 1 true, .act, .act, .act, .act, .recvTimeout, .act, .act, .act]).log
       = [(1, .timeout), (1, .success)] := by decide
 
-/-- **negation witness, next check armed before the handlers**: the interval timer fires while the handler of check 1
-runs, check 2 is issued and its timeout expires while the loop is still busy (parked); the loop then accepts the answer of
-check 2 AND the parked expiry: check 2 is counted twice. -/
-theorem early_arm_counts_twice :
-    (HealthDispatch.run earlyArmProg (D.init earlyArmProg)
-      [.fireCheck, .answer 1 true, .act, .act, .fireCheck, .fireTimeout, .act, .answer 2 true, .act, .act, .act,
-       .recvTimeout, .act, .act, .act, .act]).log = [(2, .timeout), (2, .success), (1, .success)] := by decide
+/-- **negation witness, stop after the handlers**: check 1 is answered healthy in time, its timeout timer fires while the
+handler runs, the loop stops it afterwards: with the id comparison the parked expiry is ignored, but without it
+(`guard := false`) check 1 is counted twice. With the comparison the late Stop is harmless for THIS clause — the expiry is
+stale by then — which is why the comparison, not the position of Stop, carries the proof. -/
+theorem late_stop_counts_twice :
+    (HealthDispatch.run { lateStopProg with guard := false } (D.init lateStopProg)
+      [.fireCheck, .answer 1 true, .act, .fireTimeout, .act, .act, .act, .recvTimeout, .act, .act, .act, .act, .act]).log
+      = [(1, .timeout), (1, .success)] := by decide
 
--- non-vacuity: the same schedule on the current program counts check 1 once, and a timed-out check once
+/-- **negation witness, next check armed before the handlers** (again without the id comparison): the interval timer
+fires while the handler of check 1 runs, check 2 is issued and its timeout expires while the loop is still busy (parked);
+the loop then accepts the answer of check 2 AND the parked expiry: check 2 is counted twice. -/
+theorem early_arm_counts_twice :
+    (HealthDispatch.run { earlyArmProg with guard := false } (D.init earlyArmProg)
+      [.fireCheck, .answer 1 true, .act, .act, .act, .fireCheck, .fireTimeout, .act, .answer 2 true, .act, .act, .act, .act,
+       .recvTimeout, .act, .act, .act, .act, .act]).log = [(2, .timeout), (2, .success), (1, .success)] := by decide
+
+-- non-vacuity: the same schedules on the current program count check 1 once (the parked expiry is received and ignored),
+-- check 2 is still armed; and a timed-out check is counted once, by its own timeout
+example :
+    let s := HealthDispatch.run genProg (D.init genProg)
+      [.fireCheck, .answer 1 true, .fireTimeout, .act, .act, .act, .act, .recvTimeout, .act, .act, .act]
+    s.log = [(1, .success)] ∧ s.armed = true ∧ s.parked = [] := by decide
 example : (HealthDispatch.run genProg (D.init genProg)
-    [.fireCheck, .answer 1 true, .fireTimeout, .act, .act, .act, .recvTimeout, .act, .act, .act, .act]).log = [(1, .success)] := by decide
+      [.fireCheck, .fireTimeout, .answer 1 true, .act, .act, .act, .act, .recvTimeout, .act, .act, .act]).log = [(1, .success)] := by decide
 example : (HealthDispatch.run genProg (D.init genProg)
-    [.fireCheck, .fireTimeout, .act, .act, .act, .act, .answer 1 true, .fireCheck, .answer 2 false, .act, .act, .act]).log
-    = [(2, .failure), (1, .timeout)] := by decide
+    [.fireCheck, .fireTimeout, .recvTimeout, .act, .act, .act, .act, .act, .answer 1 true, .fireCheck, .answer 2 false,
+     .act, .act, .act, .act]).log = [(2, .failure), (1, .timeout)] := by decide
+-- the hypotheses of stale_timeout_ignored / timeout_not_lost are reachable
+example :
+    let s := HealthDispatch.run genProg (D.init genProg) [.fireCheck, .answer 1 true, .fireTimeout, .act, .act, .act, .act]
+    s.exited = false ∧ s.todo = [] ∧ s.parked = [1] ∧ 1 ≠ s.currentID := by decide
+example :
+    let s := HealthDispatch.run genProg (D.init genProg) [.fireCheck, .fireTimeout]
+    s.exited = false ∧ s.todo = [] ∧ s.checkID ∈ s.issued ∧ s.parked = [s.checkID] := by decide
 
 end Dispatch
 
